@@ -181,5 +181,5 @@ def space(tier):
         p = mk([rand_body(rng, rng.choice([24, 24, 22, 25, 30])) for _ in range(16)], j, rng)
         p["non_custom_fan"] = (j % 3 == 0)
         return p
-    sp.add("random", 600 if tier == "quick" else 40_000, f_rand)
+    sp.add("random", 2400 if tier == "quick" else 40_000, f_rand)
     return sp
